@@ -579,7 +579,7 @@ impl Property for C08 {
         ]
     }
     fn families(&self, tier: Tier) -> Vec<Family<Case>> {
-        vec![Family::random("documents", tier.n(40_000, 250_000), fam_docs)]
+        vec![Family::random("documents", tier.n(40_000, 750_000), fam_docs)]
     }
     fn judge(&self, case: &Case, _strict: bool) -> Verdict {
         let cfg = match case.via {
